@@ -24,7 +24,7 @@ import (
 	"verif/internal/wx"
 )
 
-var suite = vrt.NewSuite("C17", "(document, target set, chunking): documents are generated trees written as JSON (no duplicate keys; keys ascending or, for a quarter, descending), 1-3 target paths from child, index (also negative), wildcard, union, slice, descent and trailing filter fragments; oj.Match, MatchString, MatchLoad (generated chunkings incl. 1-byte reads and splits inside tokens) and sen.Match. Oracle: the reference evaluator selects the locations of every target on the parsed document; the union is reduced to the outermost locations and sorted in document order; the callback sequence must equal that list: same normalized path text, canon-equal value, each exactly once. Non-trivial = >=2 expected matches, a match inside a nested array, or a target with wildcard/slice/descent/filter/union; distinct = distinct (document, targets, chunking)")
+var suite = vrt.NewSuite("C17", "(document, target set, chunking): documents are generated trees (one in eight a bare scalar) written as JSON (no duplicate keys; keys ascending or, for a quarter, descending; floats also spelled 3.0 / 3.00 / 3E+00; numbers beyond int64 and float64 as digits), 1-3 target paths from child, index (also negative), wildcard, union, slice, descent and trailing filter fragments; oj.Match, MatchString, MatchLoad (generated chunkings incl. 1-byte reads and splits inside tokens) and sen.Match. Oracle: the reference evaluator selects the locations of every target on the tree oj.Parse gives for the very text that is streamed; the union is reduced to the outermost locations and sorted in document order; the callback sequence must equal that list: same normalized path text, equal value of the same type (int64, float64, json.Number ...), each exactly once. Non-trivial = >=2 expected matches, a match inside a nested array, or a target with wildcard/slice/descent/filter/union; distinct = distinct (document, targets, chunking)")
 
 type Case struct {
 	Doc     any         `json:"doc"`
